@@ -346,7 +346,7 @@ func Generate(seed uint64, prop, tier string) *Plan {
 					op.Segs = append(op.Segs, r.Pick(0, 1, 500, wb))
 				}
 			case x < 8:
-				op.K = "wake"
+				op.K, op.N = "wake", r.Intn(2)
 			case x == 8 && closeHeavy:
 				op.K = "close"
 			case x == 9 && closeHeavy:
@@ -373,7 +373,7 @@ func Generate(seed uint64, prop, tier string) *Plan {
 				op := UserOp{Conn: conn, K: "asyncwrite", N: r.Pick(1, 1, 2, 10)}
 				switch r.Intn(8) {
 				case 0:
-					op.K, op.N = "wake", 0
+					op.K, op.N = "wake", r.Intn(2)
 				case 1:
 					op.K, op.N = "execute", 0
 				}
